@@ -57,3 +57,13 @@ pub fn run(what: &str) {
         _ => println!("unknown debug target"),
     }
 }
+
+pub fn replay_c16(path: &str) {
+    let t = std::fs::read_to_string(path).unwrap();
+    let v: serde_json::Value = serde_json::from_str(&t).unwrap();
+    let case: crate::props::c16::Case = serde_json::from_value(v["case"].clone()).unwrap();
+    if let crate::props::c16::Case::Generated(pc) = &case {
+        let s = crate::props::c16::render(pc);
+        println!("window {} data {} blocks {:?}", s.window, s.data.len(), s.blocks.iter().map(|b| (b.len, b.seqs.clone())).collect::<Vec<_>>());
+    }
+}
